@@ -61,7 +61,7 @@ class StringDdvI(Interface):
     """StringDdv: resolving the string value does not raise (its fragments are constants and symbol values whose
     types were checked by the reference restrictions: C08)"""
     methods = {
-        'resolving_dependencies': Method(returns=OneOf(frozenset(), frozenset([1]))),
+        'resolving_dependencies': Method(returns=OneOf(frozenset(), frozenset([1])), pure=True),
         'value_when_no_dir_dependencies': Method(returns=Str),
         'value_of_any_dependency': Method(returns=Str),
         'describer': Method(returns=Any_),
@@ -134,3 +134,64 @@ M.contract(P_ISDV + ':_ValidatorThatReportsViaExceptions.validate_pre_sds',
            params=dict(self=SDV_VALIDATOR, environment=Iface(PathResolvingEnvI)),
            raises={svh_exception.SvhValidationException: {}},      # => VALIDATION_ERROR
            raises_only=())
+
+# ------------------------------------------------------------------------------ regular expressions
+from pyvc.re_model import PatternI
+from exactly_lib.impls.types.regex import parse_regex
+
+P_REGEX = 'exactly_lib.impls.types.regex.parse_regex'
+
+M.trust('re.compile(text, flags) returns a Pattern or raises re.error / OverflowError / RecursionError / another '
+        'Exception; Pattern.sub(template, s) raises re.error / IndexError unless the template is valid for the '
+        'pattern (pyvc/re_model.py, from the documentation of `re`)')
+
+REGEX_VALIDATOR = Inst(parse_regex._ValidatorWhichCreatesRegex, _is_ignore_case=Bool, string=Iface(StringDdvI),
+                       pattern=Opt(Iface(PatternI)))
+
+M.contract(P_REGEX + ':_ValidatorWhichCreatesRegex._compile_and_set_pattern',
+           params=dict(self=REGEX_VALIDATOR, regex_pattern=Str), inline=True,
+           ensures={'the pattern is set, or the error is returned as a text': lambda self, result:
+           (result is None and self.pattern is not None) or result is not None},
+           raises_only=())
+
+for _m, _arg in (('validate_pre_sds_if_applicable', 'hds'), ('validate_post_sds_if_applicable', 'tcds')):
+    M.contract(P_REGEX + ':_ValidatorWhichCreatesRegex.' + _m, params={'self': REGEX_VALIDATOR, _arg: Any_},
+               # a regular expression that does not compile is a validation error text, never an exception
+               ensures={'no error text means there is a compiled pattern, or validation is postponed':
+                        lambda self, result: result is not None or self.pattern is not None
+                        or len(self.string.resolving_dependencies()) > 0},
+               raises_only=())
+
+# ------------------------------------------------------------------------------ replace: the replacement template
+from exactly_lib.impls.types.string_transformer.impl.replace import impl as replace_impl
+from exactly_lib.test_case.hard_error import HardErrorException
+
+P_REPLACE = 'exactly_lib.impls.types.string_transformer.impl.replace.impl'
+
+
+def _replace_replay(model, rf):
+    return _REPLACE_REPLAY % (rf['function'].rpartition(':')[2].partition('.')[0],)
+
+
+_REPLACE_REPLAY = '''
+import re
+from exactly_lib.impls.types.string_transformer.impl.replace import impl
+from exactly_lib.test_case.hard_error import HardErrorException
+replacer = getattr(impl, %r)(re.compile('a'), '\\\\6')       # replace a '\\6' : no group 6 in the pattern
+try:
+    print('process returned', repr(replacer.process('xax\\n'))); sys.exit(0)
+except HardErrorException:
+    print('HardErrorException: reported as HARD_ERROR'); sys.exit(0)
+except Exception as e:
+    print('process lets', repr(e), 'escape at transformation time (inside main: INTERNAL_ERROR); the validator of the '
+          'transformer validates the regex only, not the replacement template'); sys.exit(1)
+'''
+
+for _cls in ('_StrReplacerIncludingNewLines', '_StrReplacerExcludingNewLines'):
+    M.contract('%s:%s.process' % (P_REPLACE, _cls),
+               params=dict(self=Inst(getattr(replace_impl, _cls), _regex=Iface(PatternI), _replacement=Str),
+                           line=Str),
+               requires=lambda line: len(line) > 0,       # the lines of a text are not empty
+               returns=Str, ensures={'a string': lambda result: isinstance(result, str)},
+               # an invalid replacement template stems from the text of the test case: at the latest HARD_ERROR
+               raises={HardErrorException: {}}, raises_only=(), replay=_replace_replay)
